@@ -629,6 +629,19 @@ def c18(trace, V):
                     lambda: {"month": first_bad(bad), "out": float(o[bad][0]), "demand": float(mx[bad][0]), "in": float(a[bad][0])},
                     "final adjustment raised feed/biofuel above its demand schedule")
         trace.probe("c18_bump")
+        # what every optimiser built after the adjustment is handed must be the adjusted quantities (so that "never
+        # lowers" is still true of what the final round actually charges)
+        for rec in trace.rounds[bp.get("rounds_before", len(trace.rounds)):]:
+            for nm, o in (("biofuel", bp["out_biofuel"]), ("feed", bp["out_feed"])):
+                try:
+                    got = np.array(rec["time_consts"][nm].kcals, float)
+                except (KeyError, AttributeError):
+                    continue
+                same = got.shape == o.shape and bool((got == o).all())
+                V.check("bump_reaches_optimiser", same, dict(idn, which=nm),
+                        lambda: {"month": first_bad(got != o) if got.shape == o.shape else None, "round_record": rec["index"] + 1,
+                                 "adjusted": o[:3], "handed_to_optimiser": got[:3]},
+                        "the feed/biofuel handed to the final round's optimiser is not what the final adjustment produced")
 
 
 # =========================================================================== C02
@@ -720,6 +733,21 @@ def c02(trace, V):
 
 
 # =========================================================================== C08 (engine-P slice)
+def supply_series(tc, co):
+    """(N, copies of the supply series of a (time_consts, consts) pair) - what C08's engine-P slice compares."""
+    N = co["NMONTHS"]
+    return N, {
+        "outdoor_crops": np.array(tc["outdoor_crops"].production.kcals, float),
+        "greenhouse_crops": np.array(tc["greenhouse_crops"].kcals, float),
+        "fish": np.array(tc["fish"].to_humans.kcals, float),
+        "methane_scp": np.array(tc["methane_scp"].kcals, float),
+        "cellulosic_sugar": np.array(tc["cellulosic_sugar"].kcals, float),
+        "seaweed_built_area": np.array(tc["built_area"], float)[:N],
+        "seaweed_growth": np.array(tc["growth_rates_monthly"], float)[:N],
+        "initial_stored_food": np.atleast_1d(np.array(co["stored_food"].initial_available.kcals, float)),
+    }
+
+
 def c08_rounds(trace, V):
     """The supply series handed to the optimiser of rounds 2 and 3 must still be the round-1
     series (only meat, milk, feed and biofuel may differ between rounds), and every series of
@@ -728,20 +756,20 @@ def c08_rounds(trace, V):
         return
 
     def series(rec):
-        tc, co = rec["time_consts"], rec["consts"]
-        N = co["NMONTHS"]
-        return N, {
-            "outdoor_crops": np.array(tc["outdoor_crops"].production.kcals, float),
-            "greenhouse_crops": np.array(tc["greenhouse_crops"].kcals, float),
-            "fish": np.array(tc["fish"].to_humans.kcals, float),
-            "methane_scp": np.array(tc["methane_scp"].kcals, float),
-            "cellulosic_sugar": np.array(tc["cellulosic_sugar"].kcals, float),
-            "seaweed_built_area": np.array(tc["built_area"], float)[:N],
-            "seaweed_growth": np.array(tc["growth_rates_monthly"], float)[:N],
-            "initial_stored_food": np.atleast_1d(np.array(co["stored_food"].initial_available.kcals, float)),
-        }
+        return supply_series(rec["time_consts"], rec["consts"])
 
     N0, first = series(trace.rounds[0])
+    snap = getattr(trace, "first_series", None)
+    if snap is not None:
+        # the series as they were when compute_parameters_first_round returned them (copied at that instant): what
+        # the optimiser of EVERY round is handed must still be exactly that
+        first = snap[1]
+        for name, arr in series(trace.rounds[0])[1].items():
+            same = arr.shape == first[name].shape and bool((arr == first[name]).all())
+            V.check("rounds_keep_supplies", same, {"series": name, "round_type": trace.rounds[0]["type"], "vs": "as_computed"},
+                    lambda: {"round": 1, "month": first_bad(arr != first[name]) if arr.shape == first[name].shape else None,
+                             "as_computed": first[name][:3], "handed_to_optimiser": arr[:3]},
+                    "a supply series handed to the round-1 optimiser differs from what the parameter computation returned")
     for rec in trace.rounds:
         N, cur = series(rec)
         for name, arr in cur.items():
